@@ -476,7 +476,10 @@ func init() {
 					continue
 				}
 				k++
-				hms := []int{[]int{116, 231, 316, 122, 216, 331}[k%6]}
+				if tier != "thorough" && strings.HasPrefix(c15.Name, "VerifC15H") && k%2 == 1 {
+					continue // quick: every second HEVC shape
+				}
+				hms := []int{[]int{116, 231, 316, 122, 216, 331}[(k/2)%6]}
 				if tier == "thorough" {
 					hms = nil
 					for j, z := range []int{7, 16, 22, 31, 32, 40} {
@@ -504,7 +507,7 @@ func init() {
 					}
 					c.StepBudget, c.StepsPerByte, c.StepIsViol = 8000000, 0, true
 					c.AllocBudget, c.AllocPerByte, c.AllocIsViol = 1<<18, 0, true
-					c.MaxWallS = tierW(tier, 30, 60)
+					c.MaxWallS = tierW(tier, 20, 60)
 					r = append(r, &c)
 				}
 			}
